@@ -39,7 +39,7 @@ pub fn strategy() -> impl Strategy<Value = SCase> {
 
 /// free-running races: no schedule, real threads released together
 pub fn free_strategy() -> impl Strategy<Value = SCase> {
-    (prop::collection::vec(prop::collection::vec(prop_oneof![1 => Just(0u8), 3 => Just(1u8)], 1..4), 1..=3), 1u8..=2, 0u8..3, any::<u8>())
+    (prop::collection::vec(prop::collection::vec(prop_oneof![1 => Just(0u8), 3 => Just(1u8)], 1..4), 1..=3), prop_oneof![1 => Just(1u8), 3 => Just(2u8)], 0u8..3, any::<u8>())
         .prop_map(|(senders, controllers, hold_points, tag)| SCase { senders, controllers, hold_points, schedule: vec![tag], free: true })
 }
 
@@ -215,6 +215,7 @@ pub fn check(case: &SCase, obs: &mut Obs) -> Result<(), Fail> {
             done.fetch_add(1, Ordering::SeqCst);
         }));
     }
+    let rendezvous = Arc::new(AtomicU64::new(0));
     for c in 0..nctrl {
         let queue = queue.clone();
         let log = log.clone();
@@ -223,6 +224,7 @@ pub fn check(case: &SCase, obs: &mut Obs) -> Result<(), Fail> {
         let done = done_ctrl.clone();
         let ds = done_senders.clone();
         let inf = in_flight.clone();
+        let rendezvous = rendezvous.clone();
         bodies.push(Box::new(move |me| {
             sched2.point(me, "ctrl:before_start");
             let handle = queue.start_blocking();
@@ -251,6 +253,15 @@ pub fn check(case: &SCase, obs: &mut Obs) -> Result<(), Fail> {
                 sched2.point(me, "ctrl:holding");
             }
             log.push(Ev::BarrierDown(c));
+            if sched2.is_free() {
+                // free-running: the controllers lift their blocks as simultaneously as real threads can
+                rendezvous.fetch_add(1, Ordering::SeqCst);
+                let mut spins = 0u32;
+                while (rendezvous.load(Ordering::SeqCst) as usize) < nctrl && spins < 200_000 {
+                    std::hint::spin_loop();
+                    spins += 1;
+                }
+            }
             drop(handle);
             log.push(Ev::Released(c));
             done.fetch_add(1, Ordering::SeqCst);
